@@ -63,6 +63,25 @@ SMALL_OTHER = ["AnyButFrom('\\\\')", "AnyFrom('\\\\', '!')", "AnyButFrom(')')", 
                "Either('a', 'b')", "Optional('a')", "Capture('a')", "MatchAtLineStart('a')", "FollowedBy('a', 'b')"]
 
 
+# composite operands whose emitted text imitates another kind at its ends (balanced-looking parentheses from two groups,
+# parentheses/brackets as class members, a literal backslash before a group, quantified ends); they stress the textual type
+# inference behind every "group it or not" decision
+CONFUSERS = ["Capture(AnyFrom('(', '[')) + OneOrMore(AnyDigit()) + Capture(AnyFrom(')', ']'))",
+             "Capture('a') + 'b' + Capture('c')", "Group(Either('a', 'b')) + Group(Either('c', 'd'))",
+             "AnyFrom('(', 'x') + AnyFrom(')', 'y')", "Capture('a') + ')'", "'(' + Capture('a')",
+             "AnyFrom('[', ']') + 'a'", "AnyFrom('a', 'b') + 'x' + AnyFrom('c', 'd')", "Optional('a') + 'b' + Optional('c')",
+             "Capture(AnyFrom(')', 'a'))", "Group(AnyFrom('(', 'a'))", "Capture('a', 'n') + Backreference('n')",
+             "Pregex('\\\\') + Capture('a')", "Capture(Backslash()) + 'x' + Capture(Backslash())",
+             "Exactly('a', 2) + 'b' + Exactly('c', 2)", "AnyFrom('\\n', '(') + Capture('a')",
+             "Group('a', is_case_insensitive=True) + Group('b', is_case_insensitive=True)",
+             "FollowedBy('a', 'b') + FollowedBy('c', 'd')", "MatchAtStart('a') + MatchAtEnd('b')",
+             "Either('a', Capture('b')) + Either(Capture('c'), 'd')", "Capture(AnyFrom('|', '(')) + Capture(AnyFrom('|', ')'))"]
+
+
+def confuser_atoms():
+    return [(e, None) for e in CONFUSERS]
+
+
 def atom_list(literals, others):
     """-> list of (expr, lit)"""
     out = [('Pregex(%r)' % s, s) for s in literals]
